@@ -84,12 +84,13 @@ def run(ctx, out):
     seen = set()
     for name, b in corpus:
         # truncations
-        for k in range(len(b)):
+        big = len(b) > 400 and not thorough
+        for k in (range(len(b)) if not big else list(range(64)) + list(range(64, len(b), 13))):
             add(f"{name} {C.hexs(b[:k])}", "truncation")
         # single byte substitutions
         vals = range(256) if thorough else BOUNDARY
         step = 1 if len(b) <= 80 or thorough else 3
-        for i in range(0, len(b), step):
+        for i in (range(0, len(b), step) if not big else list(range(48)) + list(range(48, len(b), 37))):
             for x in vals:
                 if x != b[i]:
                     m = bytearray(b); m[i] = x
@@ -119,7 +120,7 @@ def run(ctx, out):
     for name, unit in (("packets::StatusInformation", b"\x60\x00"), ("packets::PrintTextBlock", b"\x07\x00"), ("feig::packets::WriteFile", b"\x2d\x00")):
         s = layout["by_name"].get(name)
         if s:
-            inner = unit * 32000
+            inner = unit * (32000 if thorough else 6000)
             if name.endswith("PrintTextBlock"):
                 inner = b"\x25" + R.ber_len(len(inner)) + inner
             tl = b"\x06" + R.ber_len(len(inner)) + inner
